@@ -1,4 +1,5 @@
 """Breaker properties C03, C06, C10: scenario generators (P line = ticker readings)."""
+import math
 import struct
 from . import conc
 from .queue import scale
@@ -39,6 +40,9 @@ def rand_cfg(rng, **extra):
         o["lerr"] = rng.randint(1, (1 << nl) - 1)
     if rng.random() < 0.4:
         o["logger"] = 1
+    # the builder's default ticker (the package's own SystemTicker) on the scripted clock instead of an injected one
+    if rng.random() < 0.3:
+        o["systk"] = 1
     return o
 
 THR_PALETTE = [k / 10 for k in range(1, 10)] + [0.25, 0.75, 0.58, 0.29, 0.33, 0.35, 0.15, 0.05, 0.95, 0.01, 0.99, 1 / 3, 2 / 3, 0.125, 0.0625]
@@ -58,11 +62,28 @@ def trip_boundary_cases():
                 out.append((thr, total - f - 1, f + 1))  # one more failure: must trip
     return out
 
+def trip_ulp_cases():
+    out = []
+    # thresholds that are no attainable ratio themselves: one float64 step below / above a rate the window can hold
+    # (an absolute or relative tolerance in the comparison decides these the other way)
+    for (f, total) in [(1, 2), (1, 3), (2, 3), (1, 4), (3, 4), (1, 5), (3, 5), (1, 10), (7, 10), (9, 10), (1, 100), (99, 100), (1, 7), (5, 6), (2, 2), (3, 3)]:
+        r = f / total
+        out.append((math.nextafter(r, 0.0), total - f, f))    # rate one step above the threshold: must trip
+        if r < 1:
+            out.append((math.nextafter(r, 1.0), total - f, f))    # rate one step below: must NOT trip
+        out.append((r, total - f, f))
+        for eps in (1e-9, 1e-12, 1e-15):
+            if 0 < r - eps:
+                out.append((r - eps, total - f, f))
+            if r + eps < 1:
+                out.append((r + eps, total - f, f))
+    return out
+
 def gen_trip_boundary(tier, rng, count):
     cases = trip_boundary_cases()
     rng.shuffle(cases)
     out = []
-    for i, (thr, ns, nf) in enumerate(cases[:count] if count else cases):
+    for i, (thr, ns, nf) in enumerate(trip_ulp_cases() + (cases[:count] if count else cases)):
         ops = ["s"] * ns + ["f"] * nf
         rng.shuffle(ops)
         ops += ["f", rng.choice(["c", "x"])]
@@ -135,6 +156,26 @@ def gen_c03(tier, rng):
         ticks = TRIP[1] + [rng.choice([8, 12])] * 40
         s.append(conc.Scn("e%d" % i, "breaker", ticks, ths, "dfs 2 %d" % scale(tier, 3000, 40000),
                           cfg_opts(listeners=1, expect_transitions=2, expect_final="1")))
+    for i in range(n1):          # the clock steps back across the deadline inside the admitting call: the trial period runs from the
+        # reading the new state was created at, so callers at or past (that reading + trial interval) get exactly one more trial
+        nt = rng.choice([2, 3, 4])
+        back = rng.choice([16, 14, 12, 10, 5, 0, -20])
+        seen = rng.choice([17, 17, 18, 25])
+        probe = rng.choice(list(range(back + 3, 20)) or [19]) if back + 3 < 20 else 19
+        ths = [TRIP[0] + ["c", "/"] + ["c"] * rng.choice([1, 2])] + [["/"] + ["c"] * rng.choice([1, 2]) for _ in range(nt - 1)]
+        ticks = TRIP[1] + [seen, back] + [probe] * 40
+        o = cfg_opts(listeners=rng.choice([1, 2]), expect_admitted=2, expect_mode="exact", expect_state="half-open")
+        if rng.random() < 0.3:
+            o["systk"] = 1
+        s.append(conc.Scn("g%d" % i, "breaker", ticks, ths, "dfs 2 %d" % scale(tier, 3000, 40000), o))
+    for i in range(n1):          # same inside a half-open trial: the next period runs from the reading the successor was created at
+        nt = rng.choice([2, 3])
+        back = rng.choice([21, 20, 18, 12])
+        probe = rng.choice(list(range(back + 3, 26)))
+        ths = [TRIP[0] + ["c", "c", "/"] + ["c"]] + [["/"] + ["c"] * rng.choice([1, 2]) for _ in range(nt - 1)]
+        ticks = TRIP[1] + [20, 20] + [23, back] + [probe] * 40      # half-open deadline 23, its successor's deadline back + 3
+        s.append(conc.Scn("h%d" % i, "breaker", ticks, ths, "dfs 2 %d" % scale(tier, 3000, 40000),
+                          cfg_opts(listeners=1, expect_admitted=3, expect_mode="exact", expect_state="half-open")))
     for i in range(scale(tier, 20, 200)):   # free mix: lockstep with the model + rejection accounting
         nt = rng.choice([2, 3, 4])
         ths = [rng.choices(["c", "s", "f"], weights=(2, 1, 3), k=rng.choice([2, 3, 4])) for _ in range(nt)]
